@@ -22,6 +22,8 @@ from vlib.val import line
 from vlib.compare import diff, Err
 
 ID = 'C07'
+# theorems of this property stated for the object evaluator `Obj.evaluate` (bridge through C02)
+EXTRA_THEOREMS = [('Splipy.Properties.Bridge', 'Splipy/Properties/Bridge.lean', 'Bridge_C07_')]
 RTOL = 1e-9
 ATOL = 1e-11
 RULE = ('objects: pardim 1-3, rational or not, open / non-open / periodic bases (incl. small highly continuous periodic ones), '
